@@ -14,6 +14,7 @@ O    :  deep snapshots of data / env.globals / template.globals before and after
 """
 import asyncio
 import random
+import re
 import sys
 import threading
 import time
@@ -30,24 +31,44 @@ RULE = ("template sets: (a) random compositions of state-carrying snippets (name
         "compared after every render. A case = (template, mode, phase); distinct non-trivial = the template's reference "
         "output is non-empty and the render touched at least one mutable input (list / dict valued name occurs in it)")
 
-MODES = ["sync", "sandbox", "async", "sync-auto"]
+MODES = ["sync", "sandbox", "async", "sync-auto", "immutable", "native"]
+ENTRY = ["render"]
+
+
+# regression groups run first (group 0 with template-level globals, group 1 with the module cache in use)
+FIXED_GROUPS = [
+    ["{% import 'lib2.html' as L2 %}{{ L2.show() }}{{ L2.tv }}|{{ tg.k }}", "{% set nsd = namespace(d) %}{% set nsd.k = 'changed' %}{{ nsd.k }}|{{ d|tojson }}",
+     "{{ d|tojson(indent=2) }}|{{ lists|sum(start=acc) }}", "{% from 'lib2.html' import show %}{{ show() }}|{{ nested|tojson }}|{{ words|indent(2) if false else lines|indent(2) }}"],
+    ["{% import 'lib3.html' as M %}{{ M.ft(zero) }}", "{% import 'lib3.html' as M %}{{ M.h(text) }}{{ M.ff(2) }}",
+     "{% import 'cnt.html' as C %}{{ C.nxt() }}", "{% import 'lib.html' as L %}{{ L.m(nums) }}{{ L.v }}|{% include 'inc.html' %}"],
+]
 
 
 def make_env(jinja2, mode, templates, env_globals):
     from jinja2.sandbox import SandboxedEnvironment
     loader = jinja2.FunctionLoader(lambda n: (templates[n], n, lambda: True) if n in templates else None)
-    cls = SandboxedEnvironment if mode == "sandbox" else jinja2.Environment
+    from jinja2.nativetypes import NativeEnvironment
+    from jinja2.sandbox import ImmutableSandboxedEnvironment
+    cls = {"sandbox": SandboxedEnvironment, "immutable": ImmutableSandboxedEnvironment, "native": NativeEnvironment}.get(mode, jinja2.Environment)
     env = cls(loader=loader, enable_async=(mode == "async"), autoescape=(mode == "sync-auto"))
     env.globals.update(env_globals)
     return env
 
 
-def render(env, name, data, tpl_globals):
+def render(env, name, data, tpl_globals, variant=0):
     try:
-        t = env.get_template(name, globals=tpl_globals)
+        if variant and tpl_globals is not None:
+            # a second template object of the same source whose template-level global tgv has another value
+            t = env.from_string(env.loader.get_source(env, name)[0], globals=dict(tpl_globals, tgv="G%d" % variant))
+        else:
+            t = env.get_template(name, globals=tpl_globals)
         with warnings.catch_warnings():
             warnings.simplefilter("ignore")
-            return "ok:" + t.render(**data)
+            if ENTRY[0] == "generate":
+                return "ok:" + "".join(map(str, t.generate(**data)))
+            if ENTRY[0] == "module" and not env.is_async:
+                return "ok:" + str(t.make_module(data))
+            return "ok:" + str(t.render(**data))
     except Exception as e:  # noqa
         return "exc:" + type(e).__name__
 
@@ -67,14 +88,14 @@ def run(ctx):
     ctx.proof("C29exec")
 
     # ---------------- generate the template groups of this run
-    n_groups = ctx.size(55, 500)
+    n_groups = ctx.size(18, 260)
     groups = []
     for gi in range(n_groups):
         templates = dict(FC.AUX)
         names = []
         for j in range(4):
             nm = f"t{j}.html"
-            templates[nm] = FC.gen_state_template(ctx.rng)
+            templates[nm] = FC.gen_state_template(ctx.rng) if gi >= len(FIXED_GROUPS) else FIXED_GROUPS[gi][j]
             names.append(nm)
         tg_data = None
         if gi % 3 == 0:
@@ -103,6 +124,7 @@ def run(ctx):
 
     thread_gate_probes(ctx, jinja2)
     exec_model_tie(ctx, jinja2)
+    filter_test_sweep(ctx, jinja2)
 
     # ---------------- O
     sys_switch = sys.getswitchinterval()
@@ -117,6 +139,7 @@ def run(ctx):
         for gi in reversed(range(len(groups))):
             templates, names, tg_data = groups[gi]
             USE_TPL_GLOBALS[0] = (gi % 2 == 0)
+            ENTRY[0] = ["render", "render", "generate", "module"][gi % 4]
             for mode in MODES:
                 for n in reversed(names):
                     data, eg, tg = inputs_for(tg_data)
@@ -142,6 +165,7 @@ import jinja2
 job = json.loads(sys.stdin.read())
 tg_data = eval(job["tg_data"]) if job["tg_data"] else None
 c29.USE_TPL_GLOBALS[0] = job.get("use_tpl", True)
+c29.ENTRY[0] = job.get("entry", "render")
 data, eg, tg = c29.inputs_for(tg_data)
 print(json.dumps(c29.render(c29.make_env(jinja2, job["mode"], job["templates"], eg), job["name"], data, tg)))
 """
@@ -159,8 +183,13 @@ def fresh_process_refs(ctx, groups, refs):
     ctx.rng.shuffle(jobs)
     for gi, mode, n in jobs[: ctx.size(14, 80)]:
         templates, names, tg_data = groups[gi]
-        job = {"templates": templates, "mode": mode, "name": n, "tg_data": repr(tg_data) if tg_data else None, "use_tpl": gi % 2 == 0}
-        rc, out, err = lib.impl_python(FRESH_CODE % lib.ROOT, inp=json.dumps(job), timeout=60)
+        job = {"templates": templates, "mode": mode, "name": n, "tg_data": repr(tg_data) if tg_data else None, "use_tpl": gi % 2 == 0,
+               "entry": ["render", "render", "generate", "module"][gi % 4]}
+        try:
+            rc, out, err = lib.impl_python(FRESH_CODE % lib.ROOT, inp=json.dumps(job), timeout=120)
+        except Exception:  # noqa: an overloaded machine is not evidence about the property
+            ctx.count("fresh_process_timeout")
+            continue
         ctx.case(key=(templates[n], mode, "fresh-process"))
         try:
             got = json.loads(out)
@@ -174,6 +203,64 @@ def fresh_process_refs(ctx, groups, refs):
                        "(state leaks between renders at module / class level)", FC.special_signature(templates[n]) or f"fresh-process render differs: {mode}")
         else:
             ctx.validated()
+
+
+def filter_test_sweep(ctx, jinja2):
+    """every registered filter and test applied to every kind of input value (with no and with a few common arguments),
+    in sync and async mode: the inputs must be untouched and a second application must print the same"""
+    ENTRY[0] = "render"
+    USE_TPL_GLOBALS[0] = True
+    args = ["", "(2)", "('n')", "(attribute='n')", "(1, 'x')", "('a', 'b')", "(start=acc)", "(indent=2)", "(true)"]
+    for mode in ("sync", "async"):
+        data, eg, tg = FC.make_inputs()
+        env = make_env(jinja2, mode, {}, eg)
+        snap = (FC.snapshot(data), FC.snapshot(env.globals.get("gl")))
+        names = sorted(data)
+        for fname in sorted(env.filters):
+            if fname in ("random", "pprint"):
+                continue
+            for vi, vname in enumerate(names):
+                if ctx.tier != "thorough" and (vi + len(fname)) % 3:
+                    continue            # quick tier: every third (filter, value) pair
+                a = args[(vi + len(fname)) % len(args)]
+                for src in ("{{ %s|%s%s }}" % (vname, fname, a), "{{ %s|%s }}" % (vname, fname), "{{ %s|%s%s|list }}" % (vname, fname, a)):
+                    outs = []
+                    for _ in range(2):
+                        try:
+                            with warnings.catch_warnings():
+                                warnings.simplefilter("ignore")
+                                outs.append("ok:" + env.from_string(src).render(**data))
+                        except Exception as e:  # noqa
+                            outs.append("exc:" + type(e).__name__)
+                    ctx.case(key=("sweep", mode, src) if outs[0].startswith("ok:") else None)
+                    ctx.count("sweep_filter_" + outs[0][:3])
+                    case = {"krt": "sweep", "template": src, "mode": mode}
+                    if repr(data) != snap[0][1] or repr(env.globals.get("gl")) != snap[1][1]:
+                        where = FC.diff_path(snap[0][0], data, "data") or "env.globals"
+                        ctx.reject(dict(case, before=snap[0][1][:300], after=repr(data)[:300]), f"a filter modified its input ({where})",
+                                   f"input modified by filter {fname}")
+                        data, eg, tg = FC.make_inputs()
+                        snap = (FC.snapshot(data), snap[1])
+                    elif re.sub(r" at 0x[0-9a-f]+", "", outs[0]) != re.sub(r" at 0x[0-9a-f]+", "", outs[1]):
+                        ctx.reject(dict(case, first=outs[0][:200], second=outs[1][:200]), "the same filter application prints differently the second time",
+                                   f"repeat differs: filter {fname}")
+                    else:
+                        ctx.validated()
+        for tname in sorted(env.tests):
+            for vname in names:
+                src = "{{ %s is %s }}{{ %s is %s(2) }}" % (vname, tname, vname, tname)
+                for s1 in (src.split("}}")[0] + "}}", "{{" + src.split("{{")[2]):
+                    try:
+                        env.from_string(s1).render(**data)
+                    except Exception:  # noqa
+                        pass
+                ctx.case()
+                if repr(data) != snap[0][1]:
+                    ctx.reject({"krt": "sweep", "template": src, "mode": mode}, "a test modified its input", f"input modified by test {tname}")
+                    data, eg, tg = FC.make_inputs()
+                    snap = (FC.snapshot(data), snap[1])
+                else:
+                    ctx.validated()
 
 
 # --------------------------------------------------------------------------- K: extracted FramesExec vs engine
@@ -358,7 +445,7 @@ def thread_gate_probes(ctx, jinja2):
                 if free[0] or who not in gates:
                     return ""
                 parked[who].set()
-                gates[who].wait(5)
+                gates[who].wait(60)
                 return ""
 
             templates = dict(extra, a=src_a, b=src_b)
@@ -380,7 +467,7 @@ def thread_gate_probes(ctx, jinja2):
         ta = threading.Thread(target=lambda: out.__setitem__("A", one(env, "a", park, "A")), name="A")
         tb = threading.Thread(target=lambda: out.__setitem__("B", one(env, "b", park, "B")), name="B")
         ta.start()
-        parked["A"].wait(5)
+        parked["A"].wait(60)
         tb.start()
         # B either finishes (it never parks) or parks inside the shared macro
         for _ in range(200):
@@ -388,9 +475,9 @@ def thread_gate_probes(ctx, jinja2):
                 break
             time.sleep(0.005)
         gates["A"].set()
-        ta.join(5)
+        ta.join(60)
         gates["B"].set()
-        tb.join(5)
+        tb.join(60)
         after = one(env, "b", lambda *_: "", "B")
         free[0] = True
         case = {"krt": "thread gate", "scenario": name, "A": src_a, "B": src_b, "templates": extra, "autoescape": auto}
@@ -467,6 +554,7 @@ def inputs_for(tg_data, variant=0):
 
 def oracle_group(ctx, jinja2, templates, names, tg_data, mode, gi):
     USE_TPL_GLOBALS[0] = (gi % 2 == 0)
+    ENTRY[0] = ["render", "render", "generate", "module"][gi % 4]
     # reference: each template alone on a fresh environment with fresh inputs
     ref = {}
     for n in names:
@@ -474,7 +562,7 @@ def oracle_group(ctx, jinja2, templates, names, tg_data, mode, gi):
         env = make_env(jinja2, mode, templates, eg)
         ref[n] = render(env, n, data, tg)
         data, eg, tg = inputs_for(tg_data, 1)
-        ref[(n, 1)] = render(make_env(jinja2, mode, templates, eg), n, data, tg)
+        ref[(n, 1)] = render(make_env(jinja2, mode, templates, eg), n, data, tg, 1)
     # shared environment, shared inputs
     data, eg, tg = inputs_for(tg_data)
     data_v1 = dict(data, tgv="D1")            # same objects, one more name
@@ -495,9 +583,9 @@ def oracle_group(ctx, jinja2, templates, names, tg_data, mode, gi):
     order = [(n, v) for n in names for v in (0, 0, 1)]
     ctx.rng.shuffle(order)
     for n, variant in order:
-        case = {"templates": templates, "template": n, "mode": mode, "variant": variant, "use_tpl": USE_TPL_GLOBALS[0],
+        case = {"templates": templates, "template": n, "mode": mode, "variant": variant, "use_tpl": USE_TPL_GLOBALS[0], "entry": ENTRY[0],
                 "tgen_data": repr(tg_data) if tg_data and n.startswith("g_") else None}
-        out = render(env, n, data_v1 if variant else data, tg)
+        out = render(env, n, data_v1 if variant else data, tg, variant)
         src = templates[n]
         refn = ref[(n, 1)] if variant else ref[n]
         nontriv = ref[n].startswith("ok:") and len(ref[n]) > 3 and any(w in src for w in ("acc", "lists", "nums", "words", "nested",
@@ -513,8 +601,24 @@ def oracle_group(ctx, jinja2, templates, names, tg_data, mode, gi):
             good = False
         if good:
             ctx.validated()
+    # an overlay of the environment shares its globals and (a copy of) its cache: renders through it and again through
+    # the original must still give the isolated outputs and leave the inputs alone
+    if gi % 3 == 0 and mode != "native":
+        ov = env.overlay()
+        for e2 in (ov, env):
+            for n in names:
+                out = render(e2, n, data, tg)
+                ctx.case(key=(templates[n], mode, "overlay") if ref[n].startswith("ok:") and len(ref[n]) > 3 else None)
+                ok_in = check_inputs({"templates": templates, "template": n, "mode": mode, "use_tpl": USE_TPL_GLOBALS[0]}, "overlay")
+                if out != ref[n]:
+                    ctx.reject({"templates": templates, "template": n, "mode": mode, "phase": "overlay", "use_tpl": USE_TPL_GLOBALS[0],
+                                "isolated": ref[n][:300], "got": out[:300]},
+                               "a render through an overlay of the environment (or after one) differs from the isolated render",
+                               FC.special_signature(templates[n]) or f"overlay render differs: {mode}")
+                elif ok_in:
+                    ctx.validated()
     # threads
-    if gi % 2 == 0:
+    if gi % 2 == 0 and (gi < 8 or mode in ("sync", "async") or ctx.tier == "thorough"):
         n_threads = ctx.rng.choice([8, 12, 16])
         results = [None] * n_threads
         plan = [ctx.rng.choice(names) for _ in range(n_threads)]
@@ -556,6 +660,9 @@ def replay(ctx, data):
     if data.get("kind") != "failing-input" or case is None:
         print("replay: names a broken theorem / obligation / correspondence:", data.get("broken"))
         return run(ctx)
+    if case.get("krt") == "sweep":
+        filter_test_sweep(ctx, jinja2)
+        return
     if case.get("krt") == "exec model":
         exec_model_tie(ctx, jinja2)
         return
@@ -568,6 +675,7 @@ def replay(ctx, data):
         return
     templates, mode = case["templates"], case["mode"]
     USE_TPL_GLOBALS[0] = case.get("use_tpl", True)
+    ENTRY[0] = case.get("entry", "render")
     names = case["template"].split(",")
     if case.get("phase") == "fresh process":
         import json
